@@ -4,6 +4,9 @@ import (
 	"encoding/json"
 	"fmt"
 	mrand "math/rand/v2"
+	"sort"
+	"strconv"
+	"strings"
 
 	"github.com/gmrtd/gmrtd/document"
 	"github.com/gmrtd/gmrtd/mobile"
@@ -25,19 +28,33 @@ func init() {
 		Level:            "fault_enumeration",
 		CrashIsViolation: true,
 		HangSeconds:      90,
-		Rule: "case = one read (reader.ReadDocument; a slice through mobile.Reader.ReadDocument) of a small simulated chip in one of the configurations {BAC, PACE-GM, PACE-CAM, BAC+AA-RSA, PACE+CA, PACE+AA-ECDSA, ...} with the response of exchange k replaced by one fault kind {empty, 1 byte, truncated by 1 / half, one bit flipped, random bytes of the same length, 70000 extra bytes, bare 6A82 / 6982 / 6700 / 6F00 / 6283 / 9000, genuine data with another outer status}; every k of the exchange sequence x every kind is enumerated (session randomness is deterministic, so the prefix before k is identical to the clean run); plus random multi-fault sequences; " +
-			"oracle: no crash / runaway (exchange count), every returned file byte-identical to the chip's, no step reported successful that the chip did not complete, trusted only with genuine files; non-trivial = a fault was actually injected; distinct = (configuration, k, kind) or the fault sequence",
+		Rule: "case = one read (reader.ReadDocument; a slice through mobile.Reader.ReadDocument) of a small simulated chip in one of the configurations {BAC, PACE-GM, PACE-CAM, BAC+AA-RSA, PACE+CA, PACE+AA-ECDSA, ...} with the response of exchange k replaced by one fault kind {empty, 1 byte, truncated by 1 / half, one bit flipped, random bytes of the same length, 70000 extra bytes, bare 6A82 / 6982 / 6700 / 6F00 / 6283 / 9000, a bare status word drawn from 36 values of every class, genuine data with another outer status}; every k of the exchange sequence x every kind is enumerated (session randomness is deterministic, so the prefix before k is identical to the clean run); plus chips without access control (no EF.CardAccess, no BAC, all files in the clear; every k x the kinds that do not alter data); plus the n-th SELECT EF of the read (every n, every configuration) x 16 status kinds {6982 6985 6A86 6282 6283 6A82 6700 6F00 6300 6981 6A80 6200 6400 9001, other outer status, drawn}; plus random multi-fault sequences; " +
+			"oracle: no crash / runaway (exchange count), every returned file byte-identical to the chip's, no step reported successful that the chip did not complete, trusted only with genuine files, an altered authentication exchange leaves an error or that step recorded as failed, an answer to SELECT EF altered into anything but 6A82 / 6283 while the chip answered 9000 leaves an error, the file, or (EF.CardAccess / EF.CardSecurity) a recorded PACE attempt / failure; non-trivial = a fault was actually injected; distinct = (configuration, k, kind) or the fault sequence",
 		MinEvaluations: 1500,
 		Exhaustive:     func(string) bool { return true },
 		Assumptions: []string{
 			"exhaustive over (exchange index, fault kind) for the enumerated configurations; the fault values themselves (which bit, which random bytes) are sampled",
-			"a fault that makes a file 'absent' or a step 'failed' is allowed; only wrong bytes, wrong success, trust without genuine files, crashes and runaway reads are violations",
+			"a fault that makes a step 'failed' is allowed, and so is a fault that makes a file 'absent' by delivering 6A82 / 6283 to its SELECT (the link then says what a chip without the file says); wrong bytes, wrong success, trust without genuine files, crashes, runaway reads, and a stored file or the PACE step that vanishes without error after any other altered SELECT answer are violations",
+			"on a chip without access control only faults that do not alter data are injected: garbled data in the clear cannot be noticed by any reader at read time",
 		},
 		Run: runC11,
 	})
 }
 
-var c11Kinds = []string{"empty", "one-byte", "truncate-1", "truncate-half", "bitflip", "random-same-length", "extra-70000", "sw-6a82", "sw-6982", "sw-6700", "sw-6f00", "sw-6283", "sw-9000", "other-outer-sw"}
+var c11Kinds = []string{"empty", "one-byte", "truncate-1", "truncate-half", "bitflip", "random-same-length", "extra-70000", "sw-6a82", "sw-6982", "sw-6700", "sw-6f00", "sw-6283", "sw-9000", "other-outer-sw", "sw-drawn"}
+
+// status words the kind "sw-drawn" draws from (one per case, from the case's PRNG): warnings,
+// execution and checking errors of every class, "more data" and a value that is no status word
+var c11DrawnStatuses = []uint16{0x6982, 0x6985, 0x6A86, 0x6282, 0x6283, 0x6A82, 0x6700, 0x6F00, 0x6300,
+	0x6200, 0x6281, 0x6284, 0x63C2, 0x6400, 0x6581, 0x6800, 0x6882, 0x6981, 0x6983, 0x6984, 0x6986, 0x6988,
+	0x6A80, 0x6A81, 0x6A83, 0x6A84, 0x6A87, 0x6A88, 0x6B00, 0x6C10, 0x6D00, 0x6E00, 0x6FFF, 0x6110, 0x9001, 0x9100}
+
+// kinds that replace or keep the data but never alter it: usable on a chip without access
+// control, where every file travels in the clear and no reader can notice garbled data
+var c11StatusKinds = []string{"empty", "one-byte", "sw-6a82", "sw-6982", "sw-6700", "sw-6f00", "sw-6283", "sw-9000", "other-outer-sw", "sw-drawn", "sw-6985", "sw-6a86", "sw-6282"}
+
+// kinds applied to the n-th SELECT EF of a read
+var c11SelectKinds = []string{"sw-6982", "sw-6985", "sw-6a86", "sw-6282", "sw-6283", "sw-6a82", "sw-6700", "sw-6f00", "sw-6300", "sw-6981", "sw-6a80", "sw-6200", "sw-6400", "sw-9001", "other-outer-sw", "sw-drawn"}
 
 func c11Fault(r *mrand.Rand, kind string, resp []byte) []byte {
 	n := len(resp)
@@ -62,18 +79,9 @@ func c11Fault(r *mrand.Rand, kind string, resp []byte) []byte {
 		v := append([]byte{}, resp[:max(0, n-2)]...)
 		v = append(v, randBytes(r, 70000)...)
 		return append(v, resp[max(0, n-2):]...)
-	case "sw-6a82":
-		return []byte{0x6A, 0x82}
-	case "sw-6982":
-		return []byte{0x69, 0x82}
-	case "sw-6700":
-		return []byte{0x67, 0x00}
-	case "sw-6f00":
-		return []byte{0x6F, 0x00}
-	case "sw-6283":
-		return []byte{0x62, 0x83}
-	case "sw-9000":
-		return []byte{0x90, 0x00}
+	case "sw-drawn":
+		sw := c11DrawnStatuses[r.IntN(len(c11DrawnStatuses))]
+		return []byte{byte(sw >> 8), byte(sw)}
 	case "other-outer-sw":
 		v := append([]byte{}, resp...)
 		if n >= 2 {
@@ -85,13 +93,66 @@ func c11Fault(r *mrand.Rand, kind string, resp []byte) []byte {
 		}
 		return v
 	}
+	// "sw-xxxx": the bare status word xxxx
+	if hx, ok := strings.CutPrefix(kind, "sw-"); ok && len(hx) == 4 {
+		if sw, err := strconv.ParseUint(hx, 16, 16); err == nil {
+			return []byte{byte(sw >> 8), byte(sw)}
+		}
+	}
 	fw.Bug("unknown fault kind %q", kind)
 	return nil
+}
+
+// c11Plan says where faults are injected: at exchange indices and / or at the n-th SELECT EF
+// (counted from 0 over the whole read, protected or not).
+type c11Plan struct {
+	byIndex  map[int]string
+	bySelect map[int]string
+}
+
+func (pl c11Plan) empty() bool { return len(pl.byIndex) == 0 && len(pl.bySelect) == 0 }
+
+// configurations c11Open.. are chips without access control: no EF.CardAccess, no BAC, every
+// file readable in the clear (reader.ReadDocument records the failed BAC attempt and reads on)
+const c11Open = 100
+
+func c11IsOpen(ci int) bool { return ci >= c11Open }
+
+// c11FileName names the file a SELECT EF addressed (011D is EF.CardSecurity in the master file
+// and EF.SOD in the LDS application).
+func c11FileName(fid uint16, inLDS bool) string {
+	switch {
+	case !inLDS && fid == chipsim.FidCardAccess:
+		return "CardAccess"
+	case !inLDS && fid == chipsim.FidCardSecurity:
+		return "CardSecurity"
+	case inLDS && fid == chipsim.FidSOD:
+		return "SOD"
+	case inLDS && fid == chipsim.FidCOM:
+		return "COM"
+	case inLDS && fid >= 0x0101 && fid <= 0x0110:
+		return fmt.Sprintf("DG%d", fid-0x0100)
+	}
+	return ""
 }
 
 func c11Config(r *mrand.Rand, ci int) perso.Opts {
 	o := perso.Opts{DGs: []int{2, 11}, Digest: 2}
 	o.PKI.CertHash = 2
+	if c11IsOpen(ci) {
+		// personalised like a BAC chip (no EF.CardAccess); c11Run removes the access condition
+		o.Access = perso.BACOnly
+		o.Suite = symref.AllSuites[1]
+		o.ParamID = 8
+		switch ci - c11Open {
+		case 1:
+			o.AA = perso.AAOpts{Kind: 1, Bits: 1024, Hash: 2}
+		case 2:
+			o.DGs = []int{2, 7, 11, 12}
+			o.AA = perso.AAOpts{Kind: 2, Curve: 3}
+		}
+		return o
+	}
 	o.ParamID = 8 + (ci*5)%11
 	o.Suite = symref.AllSuites[1+ci%3]
 	switch ci % 9 {
@@ -127,18 +188,66 @@ func c11Config(r *mrand.Rand, ci int) perso.Opts {
 
 const c11MaxK = 70
 
+// c11CleanCounts returns the number of exchanges and of SELECT EF commands of the clean read
+// of a configuration. Session randomness is deterministic, so the exchanges before a single
+// fault are those of the clean read: a single fault planned at or beyond these counts is never
+// injected and the run would be the clean run again (which the "clean" class evaluates); such
+// cases are counted and not executed. Computed once per worker process and configuration.
+var c11CleanCache = map[int][2]int{}
+
+func c11CleanCounts(ci int) (exchanges, selects int) {
+	if v, ok := c11CleanCache[ci]; ok {
+		return v[0], v[1]
+	}
+	pr := fw.NewRNG(int64(ci)+77, "c11-perso")
+	p := perso.Build(pr, c11Config(pr, ci))
+	card := p.NewCard(uint64(ci) + 5)
+	if c11IsOpen(ci) {
+		card.AuthRequired, card.BAC = false, nil
+	}
+	fw.SeedCryptoRand(int64(ci)+99, "c11-session")
+	liveRead(p, card, liveOpts{maxLe: 256}, func(next func([]byte) []byte) func([]byte) []byte {
+		return func(raw []byte) []byte {
+			exchanges++
+			resp := next(raw)
+			if n := len(card.Events); n > 0 {
+				if cmd := card.Events[n-1].Cmd; cmd != nil && cmd.INS == 0xA4 && cmd.P1 == 0x02 && len(cmd.Data) == 2 {
+					selects++
+				}
+			}
+			return resp
+		}
+	})
+	c11CleanCache[ci] = [2]int{exchanges, selects}
+	return exchanges, selects
+}
+
+// a read of a chip without access control has no authentication exchanges: fewer indices
+const c11MaxOpenK = 48
+
+// upper bound of the number of SELECT EF commands of one read
+const c11MaxSelects = 13
+
 // run one read with faults at the given exchange indices; returns false if nothing was injected
-func c11Run(k *fw.K, ci int, faults map[int]string, viaMobile bool, label string) bool {
+func c11Run(k *fw.K, ci int, plan c11Plan, viaMobile bool, label string) bool {
 	// the personalisation must be identical for every case of a configuration
 	pr := fw.NewRNG(int64(ci)+77, "c11-perso")
 	p := perso.Build(pr, c11Config(pr, ci))
 	card := p.NewCard(uint64(ci) + 5)
+	if c11IsOpen(ci) {
+		card.AuthRequired, card.BAC = false, nil
+	}
 	fw.SeedCryptoRand(int64(ci)+99, "c11-session")
 	r := k.RNG
 	injected := 0
 	exch := 0
 	altered := map[string]bool{} // authentication steps whose exchange was really altered by a fault
 	alteredUnderSM := false
+	// files whose SELECT EF the chip answered 9000 (it stores the file and made it current) while
+	// the link delivered something else that does not say "file not found" -> what was delivered
+	selAltered := map[string]string{}
+	selCount := 0
+	inLDS := false
 	wrap := func(next func([]byte) []byte) func([]byte) []byte {
 		return func(raw []byte) []byte {
 			idx := exch
@@ -148,7 +257,25 @@ func c11Run(k *fw.K, ci int, faults map[int]string, viaMobile bool, label string
 				return []byte{0x6F, 0x00}
 			}
 			resp := next(raw)
-			if kind, ok := faults[idx]; ok {
+			kind, ok := plan.byIndex[idx]
+			isSelEF := false
+			if n := len(card.Events); n > 0 {
+				if cmd := card.Events[n-1].Cmd; cmd != nil && cmd.INS == 0xA4 {
+					switch {
+					case cmd.P1 == 0x04 && card.Events[n-1].SW == 0x9000:
+						inLDS = true
+					case cmd.P1 == 0x00 && card.Events[n-1].SW == 0x9000:
+						inLDS = false
+					case cmd.P1 == 0x02 && len(cmd.Data) == 2:
+						isSelEF = true
+						if sk, sok := plan.bySelect[selCount]; sok {
+							kind, ok = sk, true
+						}
+						selCount++
+					}
+				}
+			}
+			if ok {
 				injected++
 				f := c11Fault(r, kind, resp)
 				// what counts as altered: another status word, or other data where the genuine
@@ -160,6 +287,28 @@ func c11Run(k *fw.K, ci int, faults map[int]string, viaMobile bool, label string
 					ev := card.Events[len(card.Events)-1]
 					if ev.Protected {
 						alteredUnderSM = true
+					}
+					if isSelEF && ev.SW == 0x9000 {
+						fsw := -1
+						if len(f) >= 2 {
+							fsw = int(f[len(f)-2])<<8 | int(f[len(f)-1])
+						}
+						name := c11FileName(uint16(ev.Cmd.Data[0])<<8|uint16(ev.Cmd.Data[1]), inLDS)
+						switch {
+						case fsw == 0x6A82 || fsw == 0x6283:
+							// the link says "not there": indistinguishable from the chip saying so
+							k.Count("select_answer_replaced_by_a_not_found_status")
+						case name != "":
+							k.Count("select_answer_replaced_by_another_status_or_garbage")
+							if ev.Protected {
+								k.Count("select_answer_replaced_under_secure_messaging")
+							} else {
+								k.Count("select_answer_replaced_in_the_clear")
+							}
+							if _, dup := selAltered[name]; !dup {
+								selAltered[name] = fmt.Sprintf("%x", f[max(0, len(f)-2):])
+							}
+						}
 					}
 					if ev.Cmd != nil {
 						switch {
@@ -180,7 +329,7 @@ func c11Run(k *fw.K, ci int, faults map[int]string, viaMobile bool, label string
 		}
 	}
 	det := func(extra string) map[string]any {
-		return map[string]any{"config": fmt.Sprintf("%d: %+v", ci, p.Opts.Access) + fmt.Sprintf(" aa=%+v ca=%+v can=%v", p.Opts.AA, p.Opts.CA, p.Opts.CAN), "faults": fmt.Sprint(faults), "via_mobile": viaMobile, "exchanges": exch, "note": extra,
+		return map[string]any{"config": fmt.Sprintf("%d: %+v", ci, p.Opts.Access) + fmt.Sprintf(" aa=%+v ca=%+v can=%v", p.Opts.AA, p.Opts.CA, p.Opts.CAN), "faults": fmt.Sprint(plan.byIndex), "select_faults": fmt.Sprint(plan.bySelect), "via_mobile": viaMobile, "exchanges": exch, "note": extra,
 			"chip": fmt.Sprintf("bac=%v pace=%v cam=%v ca=%v aa_challenges=%d", card.BACDone, card.PACEDone, card.CAMDone, card.CADone, len(card.AAChallenges))}
 	}
 	var docEx *document.DocumentEx
@@ -305,6 +454,53 @@ func c11Run(k *fw.K, ci int, faults map[int]string, viaMobile bool, label string
 				return injected > 0
 			}
 		}
+		// an altered answer to SELECT EF that does not say "file not found" (the chip had answered
+		// 9000): the read ended without an error, so the file must have been obtained - or, for the
+		// files of the PACE step, that step must be recorded as attempted and failed
+		names := make([]string, 0, len(selAltered))
+		for name := range selAltered {
+			names = append(names, name)
+		}
+		sort.Strings(names)
+		for _, name := range names {
+			if docFile(d, name) != nil {
+				k.Count("file_obtained_although_select_answer_was_altered")
+				continue
+			}
+			paceTrace := s.PaceErr != nil || s.PaceResult != nil || s.PaceCamResult != nil
+			switch {
+			case name == "CardAccess":
+				if p.Opts.Access == perso.BACOnly || paceTrace {
+					k.Count("cardaccess_lost_with_pace_trace")
+					continue
+				}
+				k.Violation("fault:cardaccess-select-status-skipped-pace-silently", fmt.Sprintf("the answer to SELECT EF.CardAccess was replaced by %s (the chip answered 9000 and supports PACE); the read ended without an error, without EF.CardAccess and without any PACE attempt or failure recorded (%s)", selAltered[name], label), det(fmt.Sprintf("bacResult=%v bacErr=%v", s.BacResult != nil, s.BacErr)))
+				return injected > 0
+			case name == "CardSecurity":
+				if paceTrace && (s.PaceErr != nil || (s.PaceCamResult != nil && !s.PaceCamResult.Success) || (s.PaceResult != nil && !s.PaceResult.Success)) {
+					k.Count("cardsecurity_lost_with_pace_failure_recorded")
+					continue
+				}
+				k.Violation("fault:file-silently-missing-after-select-status:CardSecurity", fmt.Sprintf("the answer to SELECT EF.CardSecurity was replaced by %s; the read ended without an error, without the file and without a PACE failure recorded (%s)", selAltered[name], label), det(""))
+				return injected > 0
+			default:
+				var n int
+				stored := name == "SOD" || name == "COM"
+				if _, err := fmt.Sscanf(name, "DG%d", &n); err == nil {
+					_, stored = p.DGFiles[n]
+					supported := false
+					for _, sn := range supportedDGs {
+						supported = supported || sn == n
+					}
+					stored = stored && supported
+				}
+				if !stored {
+					continue
+				}
+				k.Violation("fault:file-silently-missing-after-select-status:"+name, fmt.Sprintf("the chip stores %s and answered SELECT EF with 9000, the link delivered %s instead (not a 'file not found' status); the read ended without an error and without the file (%s)", name, selAltered[name], label), det(""))
+				return injected > 0
+			}
+		}
 		// every data group is read under secure messaging: after an altered protected exchange a
 		// read that ends without an error must still hold every listed, stored, supported file
 		if alteredUnderSM {
@@ -337,11 +533,23 @@ func runC11(c *fw.Ctx) {
 	}
 	_ = chipsim.FidCOM
 	nconf := c.Pick(6, 18)
+	nopen := c.Pick(2, 3)
+	// all configurations: the access-controlled ones, then the chips without access control
+	var configs []int
+	for ci := 0; ci < nconf; ci++ {
+		configs = append(configs, ci)
+	}
+	for j := 0; j < nopen; j++ {
+		configs = append(configs, c11Open+j)
+	}
 	// clean runs (also establishes, per worker, that the configuration reads cleanly)
-	c.Cases(nconf, func(ci int) string { return fmt.Sprintf("clean|config=%d", ci) }, func(ci int, k *fw.K) {
+	c.Cases(len(configs), func(i int) string { return fmt.Sprintf("clean|config=%d", configs[i]) }, func(i int, k *fw.K) {
 		k.Nontrivial("")
-		c11Run(k, ci, nil, false, "clean")
+		c11Run(k, configs[i], c11Plan{}, false, "clean")
 		k.Count("clean_runs")
+		if c11IsOpen(configs[i]) {
+			k.Count("clean_runs_chip_without_access_control")
+		}
 	})
 	// exhaustive single faults
 	type single struct{ ci, k, kind int }
@@ -359,11 +567,72 @@ func runC11(c *fw.Ctx) {
 	}, func(i int, k *fw.K) {
 		s := singles[i]
 		label := fmt.Sprintf("k=%d %s", s.k, c11Kinds[s.kind])
-		if c11Run(k, s.ci, map[int]string{s.k: c11Kinds[s.kind]}, false, label) {
+		if n, _ := c11CleanCounts(s.ci); s.k >= n {
+			k.Count("single_fault_index_beyond_end_of_session")
+			k.AddEvals(-1) // nothing was executed
+			return
+		}
+		if c11Run(k, s.ci, c11Plan{byIndex: map[int]string{s.k: c11Kinds[s.kind]}}, false, label) {
 			k.Nontrivial("")
 			k.Count("single_faults_injected")
 		} else {
 			k.Count("single_fault_index_beyond_end_of_session")
+		}
+	})
+	// chips without access control: every exchange index x every fault kind that does not alter data
+	var opens []single
+	for j := 0; j < nopen; j++ {
+		for kk := 0; kk < c11MaxOpenK; kk++ {
+			for kind := range c11StatusKinds {
+				opens = append(opens, single{c11Open + j, kk, kind})
+			}
+		}
+	}
+	c.Cases(len(opens), func(i int) string {
+		s := opens[i]
+		return fmt.Sprintf("open|config=%d k=%d kind=%s", s.ci, s.k, c11StatusKinds[s.kind])
+	}, func(i int, k *fw.K) {
+		s := opens[i]
+		label := fmt.Sprintf("chip without access control, k=%d %s", s.k, c11StatusKinds[s.kind])
+		if n, _ := c11CleanCounts(s.ci); s.k >= n {
+			k.Count("open_chip_fault_index_beyond_end_of_session")
+			k.AddEvals(-1) // nothing was executed
+			return
+		}
+		if c11Run(k, s.ci, c11Plan{byIndex: map[int]string{s.k: c11StatusKinds[s.kind]}}, false, label) {
+			k.Nontrivial("")
+			k.Count("open_chip_faults_injected")
+		} else {
+			k.Count("open_chip_fault_index_beyond_end_of_session")
+		}
+	})
+	// the n-th SELECT EF of the read (wherever it falls in the exchange sequence, in the clear or
+	// protected) x status kinds, for every configuration
+	type selCase struct{ ci, n, kind int }
+	var sels []selCase
+	for _, ci := range configs {
+		for n := 0; n < c11MaxSelects; n++ {
+			for kind := range c11SelectKinds {
+				sels = append(sels, selCase{ci, n, kind})
+			}
+		}
+	}
+	c.Cases(len(sels), func(i int) string {
+		s := sels[i]
+		return fmt.Sprintf("select|config=%d select=%d kind=%s", s.ci, s.n, c11SelectKinds[s.kind])
+	}, func(i int, k *fw.K) {
+		s := sels[i]
+		label := fmt.Sprintf("SELECT EF #%d %s", s.n, c11SelectKinds[s.kind])
+		if _, n := c11CleanCounts(s.ci); s.n >= n {
+			k.Count("select_fault_beyond_last_select_of_session")
+			k.AddEvals(-1) // nothing was executed
+			return
+		}
+		if c11Run(k, s.ci, c11Plan{bySelect: map[int]string{s.n: c11SelectKinds[s.kind]}}, false, label) {
+			k.Nontrivial("")
+			k.Count("select_faults_injected")
+		} else {
+			k.Count("select_fault_beyond_last_select_of_session")
 		}
 	})
 	// random multi-fault sequences
@@ -376,7 +645,17 @@ func runC11(c *fw.Ctx) {
 		for j := 0; j < nf; j++ {
 			faults[r.IntN(50)] = c11Kinds[r.IntN(len(c11Kinds))]
 		}
-		if c11Run(k, ci, faults, false, "multi") {
+		if r.IntN(4) == 0 {
+			// sometimes a chip without access control, with the kinds that do not alter data
+			ci = c11Open + r.IntN(nopen)
+			for idx := range faults {
+				delete(faults, idx)
+			}
+			for j := 0; j < nf; j++ {
+				faults[r.IntN(40)] = c11StatusKinds[r.IntN(len(c11StatusKinds))]
+			}
+		}
+		if c11Run(k, ci, c11Plan{byIndex: faults}, false, "multi") {
 			k.Nontrivial(fmt.Sprintf("multi|%d|%v", ci, faults))
 			k.Count("multi_fault_runs")
 		}
@@ -390,7 +669,7 @@ func runC11(c *fw.Ctx) {
 		if i%10 == 0 {
 			faults = nil
 		}
-		if c11Run(k, ci, faults, true, "mobile") || faults == nil {
+		if c11Run(k, ci, c11Plan{byIndex: faults}, true, "mobile") || faults == nil {
 			k.Nontrivial(fmt.Sprintf("mobile|%d|%v", ci, faults))
 			k.Count("mobile_runs")
 		}
